@@ -12,7 +12,7 @@ HERE = os.path.dirname(os.path.abspath(__file__))
 
 # sub-exploration -> environment knobs (quick, thorough)
 SUBS = [
-    ('C04', {'C04_DEPTHS': '3,2,2,2'}, {'C04_DEPTHS': '4,3,3,3'}),
+    ('C04', {'C04_DEPTHS': '3,2,2,2,2'}, {'C04_DEPTHS': '4,3,3,3,3'}),
     ('C05', {'C05_DEPTH': '1'}, {'C05_DEPTH': '2'}),
     ('C06', {'C06_DEPTH': '5'}, {'C06_DEPTH': '7'}),
     ('C07', {}, {}),
